@@ -1,5 +1,5 @@
 PROP = {
-    "modules": ["IdenaModel.Props.C01", "IdenaModel.Props.C01Epoch", "IdenaModel.Props.C01Shards", "IdenaModel.Props.C01Balance"],
+    "modules": ["IdenaModel.Props.C01", "IdenaModel.Props.C01Epoch", "IdenaModel.Props.C01Shards", "IdenaModel.Props.C01Balance", "IdenaModel.Props.C01Candidates"],
     "theorems": ["IdenaModel.Determinism." + t for t in [
         "C01_isort_perm", "C01_isort_perm_nodup", "C01_isortDesc_perm", "isort_unique", "isortDesc_unique",
         "commitOps_perm", "precommitOps_perm", "identityPrecommitOps_perm", "root_eq_of_ops_eq", "committee_perm",
@@ -7,7 +7,8 @@ PROP = {
         "applyEpoch_sorted_perm", "applyEpochFull_perm", "applyEpoch_order_dependent", "applyEpoch_order_dependent_observable",
         "finalCommitteeRewards_sum_le", "finalCommitteeRewards_conserved",
         "nextValidationTime_tz_indep", "epochDays_tz_indep", "nextValidation_fixed_eq_asFound_utc", "nextValidationTime_local_tz_dep",
-        "weekday_is_a_weekday", "iterate_sorted_perm", "iterate_order_dependent"]] + ["IdenaModel.CeremonyEpoch." + t for t in [
+        "weekday_is_a_weekday", "iterate_sorted_perm", "iterate_order_dependent"]] + ["IdenaModel.CeremonyCandidates." + t for t in [
+        "inv_step", "candidates_function_of_chain", "same_chain_same_candidates", "as_found_counterexample"]] + ["IdenaModel.CeremonyEpoch." + t for t in [
         "remove_newer", "inv_step", "inv_run", "answers_function_of_chain", "same_chain_same_answers", "as_found_counterexample", "fork_eval_same_content", "fork_eval_as_found_counterexample"]] + ["IdenaModel.Shards." + t for t in [
         "shardsNum_pos", "shardsNum_grow_bound", "grow_prev", "shrink_pow", "shardsNum_stable"]] + ["IdenaModel.ShardBalance." + t for t in [
         "run_isSome", "distribute_spec", "calls_spec", "relocated_in_range", "unselected_below", "all_in_range", "unselected_keep",
